@@ -285,11 +285,26 @@ class HeapInterp(Interp):
         self.exec_block(st.orelse, frame)
 
 
+class _NoCuts:
+    """policy view without loop cuts (concrete cross-check / replay runs)"""
+    def __init__(self, pol):
+        self._pol = pol
+
+    def __getattr__(self, k):
+        return getattr(self._pol, k)
+
+    def on_loop(self, interp, node, frame):
+        return None
+
+
 def heap_entry(positional=None):
     """`c.entry` that runs the target under a HeapInterp (same policy, same
     source index, so callee contracts and while-loop cuts keep working)."""
     def entry(g, it, fn, a):
-        hi = HeapInterp(it.policy, it.src)
+        pol = it.policy
+        if S.cur().concrete:
+            pol = _NoCuts(pol)        # concrete runs execute loops, they do not cut them
+        hi = HeapInterp(pol, it.src)
         argd = {k: v for k, v in a.__dict__.items()
                 if k not in ("ghost", "g", "exc", "result")}
         try:
